@@ -413,6 +413,20 @@ def mon_c17(w, F, vd):
             for i, o in list(unfinished.items()):
                 if o == rid:
                     del unfinished[i]
+    for e in w.log:
+        if e.k == "walk":
+            if e.d["wrapped"]:
+                wrapped = True
+                if e.d["n_unfinished"]:
+                    vd.label("walk_wrapped_with_unfinished")
+            for (what, mid, other) in e.d["bad"]:
+                if what == "range":
+                    vd.bad("C17.id_range", "walk: publish got msgId %r" % (mid,))
+                elif what == "reused":
+                    vd.bad("C17.id_reused", "walk: a new publish was given id %d while %s #%s carrying it is unfinished" % (
+                        mid, w.reqs[other].kind if other is not None and other >= 0 else "request", other))
+                else:
+                    vd.bad("C17.walk_failed", "walk: publish with id %r failed: %s" % (mid, other))
     vd.nontrivial = wrapped and True
     if wrapped:
         vd.label("wrapped")
